@@ -32,7 +32,11 @@ def run(ctx):
         ctx.cov['real_cluster'] = {k: v for k, v in res.items() if k not in ('fails', 'samples')}
         if res['requests'] and not res['distributed']: ctx.broken.append('real cluster: no request was distributed (the comparison with local compiles is vacuous)')
         monitor_failures(ctx, res['fails'], findings, 'real cluster (scheduler + build server + client)', rp)
-    ctx.rules.append('real cluster: request histories (source / header edits, -O / -D / -g, split dwarf, -MD, output paths, broken source, repeats) through a real scheduler + build server (OverlayBuilder, chroot stand-in for bubblewrap) with the build server killed / restarted and the scheduler killed on the way; every request compared with the direct compile (status, object, .dwo, .d), stored results must be served afterwards, a healthy cluster must really be used')
+        res = sys_dist.run_burst(os.path.join(ctx.work, 'burst'), 'c13b', 1 if ctx.quick() else 5)
+        ctx.evaluations += res['requests']; ctx.distinct_nontrivial += res['distributed']; ctx.samples += res['samples'][:1]
+        ctx.cov['real_cluster_first_wave'] = {k: v for k, v in res.items() if k not in ('fails', 'samples')}
+        monitor_failures(ctx, res['fails'], findings, 'real cluster, concurrent first wave', rp)
+    ctx.rules.append('real cluster: request histories (source / header edits, -O / -D / -g, split dwarf, -MD, output paths, broken source, repeats) through a real scheduler + build server (OverlayBuilder, chroot stand-in for bubblewrap) with the build server killed / restarted and the scheduler killed on the way; every request compared with the direct compile (status, object, .dwo, .d), stored results must be served afterwards, a healthy cluster must really be used; first wave: six concurrent requests against a fresh and against a restarted build server (toolchain not unpacked yet)')
     ctx.rules.append('h_dist: one case per (stage x error class) of the scripted dist::Client — toolchain put {other, 4xx, too large}, alloc {no capacity, error, 4xx}, submit {job unknown, cannot cache, error}, '
                      'run {error, 4xx, job unknown, exit 1/2/42/127/255}, output write {first, second unwritable} — exhaustive over the model alphabet; system: scheduler down, real scheduler without build servers, wrong token; h_dist phase 2: a 9-step history (failing request twice, repair, repeat, result entries removed while preprocessor entries stay, header edit, repeat, break again twice) against a real disk cache in preprocessor-cache mode with a build server that records the unit it is handed')
     ctx.assumptions += ['h_dist: an emulated build server (scripted dist::Client); real cluster: bubblewrap replaced by tools/fake_bwrap.c (chroot, no namespaces)']
